@@ -189,11 +189,11 @@ class Filenames(object):
                 result = string.Template(item).substitute(currentns)
                 if 'num' in currentns:
                     num += 1
-                self.variables.clear()
-                self.variables.update(g)
                 result = self.addExtension(result)
                 if result not in self.invalid:
                     self.invalid[result] = None
+                    self.variables.clear()
+                    self.variables.update(g)
                     yield result
             except KeyError:
                 continue
@@ -231,11 +231,11 @@ class Filenames(object):
                     result = string.Template(item).substitute(currentns)
                     if 'num' in currentns:
                         num += 1
-                    self.variables.clear()
-                    self.variables.update(g)
                     result = self.addExtension(result)
                     if result not in self.invalid:
                         self.invalid[result] = None
+                        self.variables.clear()
+                        self.variables.update(g)
                         yield result
                     else:
                         continue
